@@ -446,4 +446,13 @@ def rule_rename_covers_the_whole_problem(ctx):
     ctx.obls.extend(o for o in sub.obls if o["key"].startswith(("NS:problem-rename", "NAMES:chain:", "NAMES:all-chains-seen")))
 
 
-RULES = [rule_tokens, rule_sorts, rule_comparison, rule_prec, rule_pre1, rule_one_constant_per_symbol, rule_collected_sorts, rule_rename_covers_the_whole_problem]
+def rule_preamble_axioms_shared(ctx):
+    """a rendered `p__greater__(t1, t2)` means t1 > t2 only if the preamble defines the predicate that way: the preamble's axioms are true
+    in the standard interpretation (C12's PRE-2 obligations)"""
+    from . import c12
+    sub = type(ctx)(ctx.prop, ctx.tier, ctx.facts)
+    c12.rule_pre2(sub)
+    ctx.obls.extend(sub.obls)
+
+
+RULES = [rule_tokens, rule_sorts, rule_comparison, rule_prec, rule_pre1, rule_one_constant_per_symbol, rule_collected_sorts, rule_rename_covers_the_whole_problem, rule_preamble_axioms_shared]
